@@ -1081,7 +1081,21 @@ static ASTNode *parse_prefix_op(Stage1Parser *p) {
                 capacity *= 2;
                 args = realloc(args, sizeof(ASTNode*) * capacity);
             }
+            int pos_before = p->pos;
             args[count++] = parse_expression(p);
+            if (p->pos == pos_before) {
+                /* The argument could not be parsed and no token was consumed:
+                 * give up instead of looping forever on the same token. */
+                Token *bad = current_token(p);
+                parser_error(p, bad ? bad->line : line, bad ? bad->column : column,
+                             "Error at line %d, column %d: Failed to parse argument of prefix operation\n",
+                             bad ? bad->line : line, bad ? bad->column : column);
+                for (int i = 0; i < count; i++) {
+                    free_ast(args[i]);
+                }
+                free(args);
+                return NULL;
+            }
         }
 
         if (!expect(p, TOKEN_RPAREN, "Expected ')' after prefix operation")) {
@@ -1122,7 +1136,20 @@ static ASTNode *parse_prefix_op(Stage1Parser *p) {
                 capacity *= 2;
                 args = realloc(args, sizeof(ASTNode*) * capacity);
             }
+            int pos_before = p->pos;
             args[count++] = parse_expression(p);
+            if (p->pos == pos_before) {
+                Token *bad = current_token(p);
+                parser_error(p, bad ? bad->line : line, bad ? bad->column : column,
+                             "Error at line %d, column %d: Failed to parse function argument\n",
+                             bad ? bad->line : line, bad ? bad->column : column);
+                for (int i = 0; i < count; i++) {
+                    free_ast(args[i]);
+                }
+                free(args);
+                free(func_name);
+                return NULL;
+            }
         }
 
         if (!expect(p, TOKEN_RPAREN, "Expected ')' after function call")) {
